@@ -22,3 +22,27 @@ package utils
 //@ loop 0 invariant forall k int :: 1 <= k && k < len(out) ==> out[k] == (vlqGroup(n, k) | 0x80)
 //@ loop 0 invariant (quo == 0) == (len(out) == vlqLen(n))
 //@ loop 0 decreases 5 - len(out)
+
+// ---------------------------------------------------------------- reading from an io.Reader (C09, C10, C05)
+// rd is the abstract stream of /verif/spec/stdlib.gvs: (sdata, sn, spos, sfault). The postconditions
+// mention only those, never the schedule of Read results.
+
+//@ func ReadNBytes
+//@ requires rd != nil && n >= 0 && 0 <= rd.spos && rd.spos <= rd.sn
+//@ modifies rd.spos, rd.sfault
+//@ ensures [P:C09] rd.sfault == nil ==> (result1 == nil <==> old(rd.sn) - old(rd.spos) >= n)
+//@ ensures [P:C09] result1 == nil ==> (fresh(result0) && len(result0) == n && rd.spos == old(rd.spos) + n)
+//@ ensures [P:C09] result1 == nil ==> forall i int :: 0 <= i && i < n ==> result0[i] == rd.sdata[old(rd.spos) + i]
+//@ ensures [P:C10] result1 == io.EOF ==> rd.sfault == nil
+//@ ensures [P:C10] old(rd.sfault) != nil && n > 0 ==> result1 == old(rd.sfault)
+//@ ensures [H] old(rd.spos) <= rd.spos && rd.spos <= rd.sn && rd.spos <= old(rd.spos) + n
+//@ ensures [H] rd.sfault == nil ==> old(rd.sfault) == nil
+//@ ensures [H] result1 != nil && rd.sfault == nil ==> (result1 == io.EOF && rd.spos == rd.sn)
+//@ loop 0 invariant fresh(b) && len(b) == n && 0 <= num && num <= n
+//@ loop 0 invariant rd.spos == old(rd.spos) + num && rd.spos <= rd.sn
+//@ loop 0 invariant forall i int :: 0 <= i && i < num ==> b[i] == rd.sdata[old(rd.spos) + i]
+//@ loop 0 invariant err == nil ==> rd.sfault == old(rd.sfault)
+//@ loop 0 invariant err == nil ==> old(rd.sfault) == nil || num == 0
+//@ loop 0 invariant err == io.EOF ==> (rd.spos == rd.sn && rd.sfault == nil && old(rd.sfault) == nil)
+//@ loop 0 invariant err != nil && err != io.EOF ==> (rd.sfault == err && (old(rd.sfault) != nil ==> err == old(rd.sfault) && num == 0))
+//@ loop 0 invariant rd.sfault == nil ==> old(rd.sfault) == nil
